@@ -56,7 +56,11 @@ func (e *Env) noteFacts(t types.Type, v Value) {
 	if e.quant > 0 || e.facts == nil || t == nil {
 		return
 	}
-	*e.facts = append(*e.facts, typeFacts(t, v, nil)...)
+	var top *Term
+	if e.st != nil || e.useOld {
+		top = e.top()
+	}
+	*e.facts = append(*e.facts, typeFacts(t, v, top)...)
 }
 
 func (e *Env) child() *Env {
@@ -397,7 +401,9 @@ func (e *Env) selectField(b tv, name string) tv {
 		evalFail("no field %s in %s", name, b.T)
 	}
 	cur, curT := b.V, b.T
+	computed := false
 	for i, idx := range path {
+		computed = false
 		// auto-dereference
 		if pt, ok := types.Unalias(curT).Underlying().(*types.Pointer); ok {
 			owner := namedOf(pt.Elem())
@@ -423,7 +429,8 @@ func (e *Env) selectField(b tv, name string) tv {
 				return tv{e.eng.syncMapV(spec, embAddr(owner, idx, ot)), nil}
 			}
 			if isPlainStruct(f.Type()) || isOpaqueStruct(f.Type()) {
-				// keep as pointer to the embedded struct
+				// keep as pointer to the embedded struct (a computed address: no type facts)
+				computed = true
 				cur, curT = embAddr(owner, idx, ot), types.NewPointer(f.Type())
 			} else {
 				cur, curT = readField(e.h(), owner, idx, ot), f.Type()
@@ -437,7 +444,9 @@ func (e *Env) selectField(b tv, name string) tv {
 		f := structOf(curT).Field(idx)
 		cur, curT = sv.F[idx], f.Type()
 	}
-	e.noteFacts(curT, cur)
+	if !computed {
+		e.noteFacts(curT, cur)
+	}
 	return tv{cur, curT}
 }
 
@@ -505,6 +514,9 @@ func valEq(a, b tv) *Term {
 		y, ok := b.V.(*Term)
 		if !ok {
 			evalFail("comparison of scalar with %T", b.V)
+		}
+		if x.Sort.Kind == SInt && y.Sort.Kind == SInt {
+			return binTerm(token.EQL, x, y) // expands masked comparisons (x & C == 0) into bit predicates
 		}
 		return Eq(x, y)
 	case IfaceV:
@@ -829,16 +841,26 @@ func (e *Env) call(n *ast.CallExpr) tv {
 	case "ite":
 		c := e.evalBool(n.Args[0])
 		a, b := coerce(arg(1), arg(2))
-		at, ok1 := a.V.(*Term)
-		bt, ok2 := b.V.(*Term)
-		if !ok1 || !ok2 {
-			evalFail("ite on non-scalars")
-		}
 		rt := a.T
 		if rt == nil {
 			rt = b.T
 		}
-		return tv{Ite(c, at, bt), rt}
+		at, ok1 := a.V.(*Term)
+		bt, ok2 := b.V.(*Term)
+		if ok1 && ok2 {
+			return tv{Ite(c, at, bt), rt}
+		}
+		if rt == nil {
+			evalFail("ite on untyped non-scalars")
+		}
+		av, bv := e.coerceTo(a, rt), e.coerceTo(b, rt)
+		ac, bc := toComps(rt, av), toComps(rt, bv)
+		out := make([]*Term, len(ac))
+		for i := range ac {
+			out[i] = Ite(c, ac[i], bc[i])
+		}
+		v, _ := fromComps(rt, out)
+		return tv{v, rt}
 	case "forall", "exists":
 		id, ok := n.Args[0].(*ast.Ident)
 		if !ok {
@@ -1030,6 +1052,8 @@ func (e *Env) call(n *ast.CallExpr) tv {
 		}
 		r := fnApply(sig, ft, as)
 		return tv{r[0], sig.Results().At(0).Type()}
+	case "oncedone": // oncedone(&once): the sync.Once at this address has run
+		return tv{Select(heapArr(e.h(), "G|oncedone", ArrayS(IntS, BoolS)), argT(0)), nil}
 	case "noopfn":
 		return tv{App("noopfn", BoolS, argT(0)), nil}
 	case "mkstruct":
